@@ -43,16 +43,21 @@ type Obligation struct {
 }
 
 type VC struct {
-	facts []Fact
-	obls  []*Obligation
-	nsym  int
-	fn    string
+	facts   []Fact
+	obls    []*Obligation
+	nsym    int
+	fn      string
+	symMark map[*Term]int
 }
 
 func (vc *VC) fresh(hint string, s *Sort) *Term {
 	vc.nsym++
 	h := sanitize(hint)
-	return Var(fmt.Sprintf("%s!%d", h, vc.nsym), s)
+	t := Var(fmt.Sprintf("%s!%d", h, vc.nsym), s)
+	if vc.symMark != nil {
+		vc.symMark[t] = vc.nsym
+	}
+	return t
 }
 
 func sanitize(s string) string {
@@ -336,11 +341,17 @@ func (o *Obligation) emit(p *Prelude, noCOI bool) string {
 	var sb strings.Builder
 	sb.WriteString("(set-option :produce-models true)\n(set-logic ALL)\n")
 	sb.WriteString("(declare-datatypes ((Slice 0)) (((mk-slice (s-arr Int) (s-off Int) (s-len Int)))))\n")
-	sb.WriteString(p.selectBlocks(funs))
 	vars := make([]*Term, 0, len(need))
 	for v := range need {
 		vars = append(vars, v)
+		if _, isPre := p.Fns[v.Name]; isPre {
+			funs[v.Name] = true
+		}
+		for _, sym := range symRe.FindAllString(v.S.String(), -1) {
+			funs[sym] = true
+		}
 	}
+	sb.WriteString(p.selectBlocks(funs))
 	sort.Slice(vars, func(i, j int) bool { return vars[i].id < vars[j].id })
 	for _, v := range vars {
 		if _, isPre := p.Fns[v.Name]; isPre {
@@ -449,8 +460,8 @@ func (o *Obligation) discharge(p *Prelude, tmpdir string, timeoutS int) {
 		o.Output = err.Error()
 		return
 	}
-	if o.Cover && timeoutS > 4 {
-		timeoutS = 4
+	if o.Cover && timeoutS > 10 {
+		timeoutS = 10
 	}
 	ctx, cancel := context.WithCancel(context.Background())
 	defer cancel()
